@@ -27,6 +27,20 @@ Theorem C06_aa_unclipped_walk_inside_clip :
   forall x y a, In (x, y, a) out -> cl <= x < cr /\ ct <= y < cb /\ 0 < a.
 Proof. exact walk_horish_inside_clip. Qed.
 
+(* the mostly-vertical walk is the transposed mostly-horizontal walk (same code with x and y exchanged), hence the same
+   safety statement with columns and rows exchanged *)
+Theorem C06_aa_vertish_is_transposed_horish :
+  forall c istart istop fstart slope s0 s1,
+  walk Vertish c istart istop fstart slope s0 s1 = option_map (map tr) (walk Horish (swapc c) istart istop fstart slope s0 s1).
+Proof. exact walk_tr. Qed.
+Theorem C06_aa_unclipped_vertish_walk_inside_clip :
+  forall istart istop fstart slope s0 s1 out cl ct cr cb,
+  walk Vertish None istart istop fstart slope s0 s1 = Some out ->
+  ct <= istart -> istop <= cb -> 0 <= cl ->
+  cl <= y_top fstart slope (istop - istart) -> y_bottom fstart slope (istop - istart) <= cr ->
+  forall x y a, In (x, y, a) out -> cl <= x < cr /\ ct <= y < cb /\ 0 < a.
+Proof. exact walk_vertish_inside_clip. Qed.
+
 (* non-vacuity: a 5-column walk starting at row 3.25 with slope 1/4 *)
 Example C06_aa_example :
   walk Horish None 2 7 (3 * 65536 + 16384) 16384 64 0 =
